@@ -192,7 +192,7 @@ def run(facts, res):
             res.violation("I3", "get_anchors|parent-removal", "get_anchors must remove exactly the elements of each applied block's `parents` from the candidate set", ga.loc())
         # candidates: all keys of the block map (no take/skip): collected or inserted in a whole-map loop
         rt = du_of(ga).local_term(0, 30)
-        names = [callee_name(x) for x in walk(rt) if x[0] == "call"]
+        names = [callee_name(x) for x in walk(rt, False) if x[0] == "call"]
         whole = ("collect" in names and not (set(names) & {"take", "skip", "step_by", "take_while", "skip_while", "rev"}))
         if not whole and ins_sites:
             from ..common import whole_iteration
